@@ -326,11 +326,14 @@ func (r *deserContext) decodeBinary() Item {
 		return NewBool(b)
 	case IntegerT:
 		data := r.ReadVarBytes(bigint.MaxBytesLen)
+		if r.Err != nil {
+			return nil
+		}
 		num := bigint.FromBytes(data)
 		return NewBigInteger(num)
 	case ArrayT, StructT:
 		size := int(r.ReadVarUint())
-		if size > r.limit {
+		if size < 0 || size > r.limit {
 			r.Err = errTooBigElements
 			return nil
 		}
@@ -345,7 +348,7 @@ func (r *deserContext) decodeBinary() Item {
 		return NewStruct(arr)
 	case MapT:
 		size := int(r.ReadVarUint())
-		if size > r.limit/2 {
+		if size < 0 || size > r.limit/2 {
 			r.Err = errTooBigElements
 			return nil
 		}
@@ -354,6 +357,14 @@ func (r *deserContext) decodeBinary() Item {
 			key := r.decodeBinary()
 			value := r.decodeBinary()
 			if r.Err != nil {
+				break
+			}
+			if key == nil {
+				r.Err = errors.New("invalid map key")
+				break
+			}
+			if err := IsValidMapKey(key); err != nil {
+				r.Err = err
 				break
 			}
 			m.Add(key, value)
